@@ -384,6 +384,26 @@ def proxy_fold_rule(repo: Repo, rep: Report, rid: str) -> bool:
     return True
 
 
+def union_life_rule(repo: Repo, rep: Report, rid: str) -> None:
+    rep.rule(rid, "union life cycle folded: UnionMetaType._read / _read_fields / _write, Union.__setattr__ / _rebuild / _update / _proxify and "
+                  "UnionProxy.__setattr__ are interpreted together on four model unions (scalars, a char array, a structure, a structure nested two "
+                  "levels, an anonymous structure, explicit member offsets), two contents, parsed at stream positions 0 and 3: parsing consumes the "
+                  "union's size, every member is the reference parse of its type from the union's bytes, and after each of 4 - 6 assignments (to "
+                  "members, through nested structures, zero values included) every member and the dump reflect the new bytes of the assigned member "
+                  "and the old bytes elsewhere")
+    from ..unionfold import fold_union_life
+
+    fi = repo.func("types/structure.py", "UnionMetaType._read")
+    fold = fold_union_life(repo)
+    if fold is None:
+        rep.ok(rid, f"{fi.key}:life-fold", "not foldable with the evaluator's whitelist: the per-function folds and structural rules decide", fi.loc(), nontrivial=False)
+        return
+    bad = fold["bad"]
+    b = bad[0] if bad else None
+    rep.check(not bad, rid, f"{fi.key}:life-fold", f"{fold['cases']} parse / assignment steps agree with the reference",
+              (f"{b[0]}: {b[1]}; expected {b[2]} [{len(bad)} discrepancies]") if b else "", fi.loc())
+
+
 def rebuild_fold_rule(repo: Repo, rep: Report, rid: str) -> None:
     rep.rule(rid, "Union._rebuild folded over 6 (old buffer, member offset, value) cases: the member's encoding replaces exactly the bytes at the member's "
                   "offset, the rest of the buffer stays (zeros when there was none), None is written as the default, 0 as 0; members are re-read, then re-proxified")
@@ -451,3 +471,4 @@ def run(repo: Repo, rep: Report, tier: str) -> None:
 
     # a structure-typed member is encoded by the structure writer into the union's buffer: every byte of its extent is written (gaps as zeros)
     struct_rw_fold_rule(repo, rep, "C11.R25", 3 if tier == "thorough" else 2)
+    union_life_rule(repo, rep, "C11.R26")
